@@ -37,6 +37,11 @@ type Model struct {
 	dead   [2]string // error class the model reported (the model's caller stops there, like the real reader)
 	fault  string    // protocol problem with the driver
 	encN   [2]int    // frames checked against the model encoder
+	// the model client's handshake outcome on the surplus: error class ("" = completes) and whether
+	// an out-of-range length field was met (then the real decoder's random replacement length
+	// decides when the error surfaces)
+	HandshakeErr string
+	HandshakeInv bool
 }
 
 const consumeReadSize = 1448 * 16
@@ -79,6 +84,10 @@ func (m *Model) Start() {
 	m.call("new %s %s 0", sessName(S2C), vlib.Hex(m.pr.Keys[S2C]))
 	if rep := m.call("surplus %s %s 1", sessName(S2C), vlib.Hex(m.pr.Surplus)); strings.HasPrefix(rep, "err ") {
 		m.dead[S2C] = strings.TrimPrefix(rep, "err ")
+		m.HandshakeErr = m.dead[S2C]
+	}
+	if f := strings.Fields(m.call("state %s", sessName(S2C))); len(f) >= 3 {
+		m.HandshakeInv = f[2] == "1"
 	}
 	for _, q := range m.pr.PostQueue {
 		m.feed(S2C, q)
@@ -152,6 +161,19 @@ func (m *Model) Fail(dir int, cls string) {
 		return
 	}
 	m.call("fail %s %s", sessName(dir), cls)
+}
+
+// FailWith queues the final chunk together with the network error (`NetEv.fail chunk cls`), the
+// way the endpoint's reads will see it: pieces that exceed its read buffer come first, alone.
+func (m *Model) FailWith(dir int, chunk []byte, cls string) {
+	if m == nil {
+		return
+	}
+	for len(chunk) > consumeReadSize {
+		m.Deliver(dir, chunk[:consumeReadSize], nil)
+		chunk = chunk[consumeReadSize:]
+	}
+	m.call("failc %s %s %s", sessName(dir), vlib.Hex(chunk), cls)
 }
 
 // Compare lets the model reader run until it blocks or fails and compares with the real
